@@ -47,6 +47,7 @@ type JobResult struct {
 	NAssume  int
 	NVars    int
 	VarSorts map[string]string
+	StubNames []string
 }
 
 type Options struct {
@@ -390,6 +391,10 @@ func (r *Run) runCase(hc harnessCase) *JobResult {
 	jr.Encoded, jr.Stubbed, jr.Modeled, jr.Stats = x.encoded, x.stubbed, x.modeled, x.stat
 	jr.NAssume = len(x.assumes)
 	jr.NVars = len(x.c.Vars)
+	for k := range x.everStubbed {
+		jr.StubNames = append(jr.StubNames, k)
+	}
+	sort.Strings(jr.StubNames)
 	jr.VarSorts = map[string]string{}
 	for _, v := range x.c.Vars {
 		jr.VarSorts[v.Name] = v.Sort.String()
@@ -449,7 +454,7 @@ func (r *Run) solveJob(x *Exec, jr *JobResult) {
 			jr.Obls = append(jr.Obls, &ObligResult{Harness: jr.Harness, Case: jr.Case, ID: ob.ID, Kind: ob.Kind, Pos: ob.Pos, Status: "discharged-by-simplification"})
 			continue
 		}
-		if ob.Kind == "panic" || ob.Kind == "append" {
+		if ob.Kind == "panic" || ob.Kind == "append" || ob.Kind == "bassert" {
 			if _, ok := batches[ob.NAssume]; !ok {
 				batchKeys = append(batchKeys, ob.NAssume)
 			}
@@ -465,19 +470,27 @@ func (r *Run) solveJob(x *Exec, jr *JobResult) {
 		pend = append(pend, pqn)
 	}
 	sort.Ints(batchKeys)
+	const maxBatch = 96
 	for _, k := range batchKeys {
-		obs := batches[k]
-		any := c.False
-		for _, ob := range obs {
-			any = c.Or(any, ob.Cond)
+		all := batches[k]
+		for lo := 0; lo < len(all); lo += maxBatch {
+			hi := lo + maxBatch
+			if hi > len(all) {
+				hi = len(all)
+			}
+			obs := all[lo:hi]
+			any := c.False
+			for _, ob := range obs {
+				any = c.Or(any, ob.Cond)
+			}
+			q, rq := mkq(k, any)
+			id := obs[0].ID
+			if len(obs) > 1 {
+				id = fmt.Sprintf("batch(%d run-time checks: %s … %s)", len(obs), obs[0].ID, obs[len(obs)-1].ID)
+			}
+			pend = append(pend, &pendingQuery{obls: obs, q: q, rest: rq,
+				res: &ObligResult{Harness: jr.Harness, Case: jr.Case, ID: id, Kind: obs[0].Kind, Pos: obs[0].Pos}})
 		}
-		q, rq := mkq(k, any)
-		id := obs[0].ID
-		if len(obs) > 1 {
-			id = fmt.Sprintf("batch(%d run-time checks: %s … %s)", len(obs), obs[0].ID, obs[len(obs)-1].ID)
-		}
-		pend = append(pend, &pendingQuery{obls: obs, q: q, rest: rq,
-			res: &ObligResult{Harness: jr.Harness, Case: jr.Case, ID: id, Kind: "panic", Pos: obs[0].Pos}})
 	}
 	// solve concurrently; a batch that is satisfiable or inconclusive is split (halves, then singles)
 	var wg sync.WaitGroup
